@@ -1,0 +1,47 @@
+//go:build verif
+
+// Contracts for package indexmeta (comment-only; read by /verif/vcgo, build tag verif).
+package indexmeta
+
+//@ func (*Meta) UnmarshalWithDecoder
+//@   mode int
+//@   requires decoder != nil
+//@   modifies m
+
+//@ func (*Meta) UnmarshalBinary
+//@   mode int
+//@   modifies m
+
+//@ func encodeUint64
+//@   mode bv
+//@   ensures len(result) == 8 && fresh(result)
+//@   ensures forall i int :: 0 <= i && i < 8 ==> result[i] == byte(value >> (8*uint(i)))
+
+//@ func decodeUint64
+//@   mode bv
+//@   requires len(buf) >= 8
+//@   ensures forall i int :: 0 <= i && i < 8 ==> byte(result >> (8*uint(i))) == buf[i]
+
+//@ func cloneBytes
+//@   mode int
+//@   ensures len(result) == len(b) && fresh(result)
+//@   ensures forall i int :: 0 <= i && i < len(b) ==> result[i] == b[i]
+
+//@ func (Meta) Get
+//@   mode int
+//@   ensures result1 ==> exists i int :: 0 <= i && i < len(m.KeyVals) && result0 == m.KeyVals[i].Value
+//@   ensures !result1 ==> len(result0) == 0
+
+//@ func (Meta) GetUint64
+//@   mode int
+
+//@ func (*Meta) Count
+//@   mode int
+//@   ensures 0 <= result && result <= len(m.KeyVals)
+//@   loop 0 invariant 0 <= count && count <= rangeidx0
+
+//@ func (*Meta) Add
+//@   mode int
+//@   modifies m
+//@   ensures result == nil ==> len(key) <= 255 && len(value) <= 255 && len(m.KeyVals) == old(len(m.KeyVals)) + 1
+//@   ensures result != nil ==> *m == old(*m)
